@@ -32,15 +32,15 @@ namespace occa {
 
     hash_t device::kernelHash(const occa::json &props) const {
       return (
-        occa::hash(props["compiler"])
-        ^ props["compiler_flags"]
-        ^ props["compiler_env_script"]
-        ^ props["compiler_vendor"]
-        ^ props["compiler_language"]
-        ^ props["compiler_linker_flags"]
-        ^ props["compiler_shared_flags"]
-        ^ props["include_occa"]
-        ^ props["link_occa"]
+        kernelPropertyHash(props, "compiler")
+        ^ kernelPropertyHash(props, "compiler_flags")
+        ^ kernelPropertyHash(props, "compiler_env_script")
+        ^ kernelPropertyHash(props, "compiler_vendor")
+        ^ kernelPropertyHash(props, "compiler_language")
+        ^ kernelPropertyHash(props, "compiler_linker_flags")
+        ^ kernelPropertyHash(props, "compiler_shared_flags")
+        ^ kernelPropertyHash(props, "include_occa")
+        ^ kernelPropertyHash(props, "link_occa")
       );
     }
 
